@@ -30,6 +30,11 @@ pub fn dispatch(ctx: &mut Ctx, op: &str, call: &Value) -> Option<Value> {
             None => out::skipped(),
             Some(h) => hfield(ctx, h, out::arg_str(call, "kind"), out::arg_str(call, "f")),
         },
+        // the i-th tag of the walk viewed through a sized header-tag struct of the caller's choosing
+        "hview" => match ctx.hdr_ref() {
+            None => out::skipped(),
+            Some(h) => hview(h, out::arg_str(call, "view"), out::arg_u64(call, "i") as usize, out::arg_str(call, "f")),
+        },
         "hacc" => match ctx.hdr_ref() {
             None => out::skipped(),
             Some(h) => match out::arg_str(call, "f") {
@@ -237,6 +242,62 @@ fn hfield(ctx: &Ctx, h: Hdr, kind: &str, f: &str) -> Value {
                 _ => out::unsupported(),
             }
         }
+        _ => out::unsupported(),
+    }
+}
+
+fn hview(h: Hdr, view: &str, i: usize, f: &str) -> Value {
+    use multiboot2_header::{
+        AddressHeaderTag, ConsoleHeaderTag, EfiBootServiceHeaderTag, EntryAddressHeaderTag, EntryEfi32HeaderTag,
+        EntryEfi64HeaderTag, FramebufferHeaderTag, ModuleAlignHeaderTag, RelocatableHeaderTag,
+    };
+    let tag = tag_or_none!(h.iter().nth(i));
+    macro_rules! view {
+        ($ty:ty, $t:ident, $rest:expr) => {{
+            let $t = tag.cast::<$ty>();
+            common!($t, f);
+            $rest
+        }};
+    }
+    match view {
+        "address" => view!(AddressHeaderTag, t, match f {
+            "header_addr" => out::val(t.header_addr() as u64, 4),
+            "load_addr" => out::val(t.load_addr() as u64, 4),
+            "load_end_addr" => out::val(t.load_end_addr() as u64, 4),
+            "bss_end_addr" => out::val(t.bss_end_addr() as u64, 4),
+            _ => out::unsupported(),
+        }),
+        "entry" => view!(EntryAddressHeaderTag, t, match f {
+            "entry_addr" => out::val(t.entry_addr() as u64, 4),
+            _ => out::unsupported(),
+        }),
+        "entry_efi32" => view!(EntryEfi32HeaderTag, t, match f {
+            "entry_addr" => out::val(t.entry_addr() as u64, 4),
+            _ => out::unsupported(),
+        }),
+        "entry_efi64" => view!(EntryEfi64HeaderTag, t, match f {
+            "entry_addr" => out::val(t.entry_addr() as u64, 4),
+            _ => out::unsupported(),
+        }),
+        "console" => view!(ConsoleHeaderTag, t, match f {
+            "console_flags" => out::val(t.console_flags() as u32 as u64, 4),
+            _ => out::unsupported(),
+        }),
+        "hfb" => view!(FramebufferHeaderTag, t, match f {
+            "width" => out::val(t.width() as u64, 4),
+            "height" => out::val(t.height() as u64, 4),
+            "depth" => out::val(t.depth() as u64, 4),
+            _ => out::unsupported(),
+        }),
+        "module_align" => view!(ModuleAlignHeaderTag, t, out::unsupported()),
+        "hefi_bs" => view!(EfiBootServiceHeaderTag, t, out::unsupported()),
+        "relocatable" => view!(RelocatableHeaderTag, t, match f {
+            "min_addr" => out::val(t.min_addr() as u64, 4),
+            "max_addr" => out::val(t.max_addr() as u64, 4),
+            "align" => out::val(t.align() as u64, 4),
+            "preference" => out::val(t.preference() as u32 as u64, 4),
+            _ => out::unsupported(),
+        }),
         _ => out::unsupported(),
     }
 }
